@@ -9,7 +9,7 @@ from onnx import helper, numpy_helper
 
 from vf import compare, execs, modelgen, optcommon, wellformed
 from vf.hyp import drive, st
-from vf.modelgen import F32, F64, I64, Gen, Val, _free_names, _value_info, make_array
+from vf.modelgen import F32, F64, Gen, Val, _free_names, _value_info, make_array
 from vf.runner import Collector
 
 ID = "C10"
@@ -28,6 +28,10 @@ RULE = ("Hypothesis-generated executable models at source opset s in 18..25 (typ
         "signature, and is equivalent to the source on >=3 inputs (onnxruntime + onnx.reference decision table). Non-trivial = s != t "
         "and the model holds an adapter op, a subgraph or a function; distinct by (model hash, s, t, entry, fallback, versions).")
 ASSUMPTIONS = ["onnxruntime CPU (optimisations off) and onnx.reference implement the ONNX operator semantics of every opset 18..25",
+               "two kernels are added to onnx.reference so that it can be the second runtime everywhere: GridSample reading the opset-16 "
+               "mode names bilinear/bicubic as the opset-20 linear/cubic kernels (the renaming stated in the opset-20 changelog) and a "
+               "numpy GroupNormalization (per-group scale/bias below opset 21, per-channel from 21); a case counts only if onnxruntime "
+               "and this evaluator agree on the source",
                "onnx.checker + vf/wellformed.py define validity; the checker's 'GroupNormalization is deprecated' complaint below opset 21 "
                "is tolerated on source and unconverted models (the 20->21 adapter exists for exactly those models)",
                "onnx_ir (site-packages) serialises an ir.Model faithfully (ir.to_proto is the observation of an in-memory model)",
@@ -43,7 +47,6 @@ TIMEOUT = {"quick": 900, "thorough": 4 * 3600}
 EXCLUDE: set = set(filter(None, os.environ.get("VERIF_C10_EXCLUDE", "").split(",")))
 
 IRV = {18: 8, 19: 9, 20: 9, 21: 10, 22: 10, 23: 11, 24: 12, 25: 13}
-OPSETS = list(range(18, 26))
 ENTRIES = ["ir", "ir", "ir", "proto", "proto", "pass", "native"]
 FAMILIES = ["DFT", "GridSample", "GroupNormalization"]
 SHORT = {"DFT": "DFT", "GridSample": "GS", "GroupNormalization": "GN"}
@@ -52,7 +55,7 @@ _DEPRECATED_GN = "GroupNormalization is deprecated"
 
 # ===================================================================================== generator
 def plan(tier, seed, budget):
-    n = int((4800 if tier == "quick" else 160000) * budget)
+    n = int((4000 if tier == "quick" else 120000) * budget)
     shards = 16 if tier == "quick" else 64
     return [{"n": max(1, n // shards)} for _ in range(shards)]
 
@@ -121,7 +124,7 @@ def prep_dft(g, P, col):
     shape = (g.pick([1, 2]),) + sig + (last,)
     dims = list(shape)
     if g.chance(2):
-        dims[0] = "N"
+        dims[0] = g.fresh("N")  # symbolic names are never shared between inputs (their sizes are drawn independently)
     x = g.add_input(g.pick([F32, F32, F32, F64]), shape, dims=dims, style=g.pick(["mixed", "smallint", "unit"]))
     x = _maybe_intermediate(g, x, P)
     axis = g.pick([None, None] + list(range(1, rank - 1)) + list(range(-(rank - 1), -1)))
@@ -196,12 +199,12 @@ def prep_groupnorm(g, P, col):
     x_decl = g.pick(["static", "static", "static", "sym_all", "sym_but_c", "intermediate", "intermediate"])
     sb_kind = g.pick(["init", "init", "init", "node", "input_static", "input_unknown"])
     fires = s <= 20 and groups != c  # the 20->21 adapter has to rewrite scale/bias
-    if fires and "groupnorm_20_21_not_converted" in EXCLUDE and (x_decl in ("sym_all", "intermediate") or sb_kind in ("node", "input_unknown")):
+    if s <= 20 and "groupnorm_20_21_not_converted" in EXCLUDE and (x_decl in ("sym_all", "intermediate") or sb_kind in ("node", "input_unknown")):
         col.exclude("groupnorm_20_21_not_converted")
         x_decl = g.pick(["static", "sym_but_c"])
         sb_kind = g.pick(["init", "input_static"])
-    dims = {"static": list(shape), "sym_all": ["N", "C"] + [f"D{i}" for i in range(rank - 2)],
-            "sym_but_c": ["N", c] + [f"D{i}" for i in range(rank - 2)], "intermediate": list(shape)}[x_decl]
+    sym = [g.fresh("D") for _ in range(rank)]  # symbolic names are never shared between inputs
+    dims = {"static": list(shape), "sym_all": sym, "sym_but_c": [sym[0], c] + sym[2:], "intermediate": list(shape)}[x_decl]
     x = g.add_input(F32, shape, dims=dims, style=g.pick(["mixed", "smallint", "unit"]))
     if x_decl == "intermediate":
         r = g.emit(g.pick(["Neg", "Identity", "Relu"]), [x])
@@ -257,7 +260,10 @@ def place(g, finish, placement, P):
         cur = "r"
         node = helper.make_node(op, [formal[v.name] if v is not None else "" for v in ins], [cur], **attrs)
         ref_attr = None
-        if op == "GroupNormalization" and g.cfg.get("allow_ref_attr") and g.chance(3):
+        use_ref = op == "GroupNormalization" and g.cfg.get("allow_ref_attr") and g.chance(3)
+        if (use_ref and g.opset <= 20 and P.get("num_groups") != P.get("channels") and "groupnorm_20_21_drops_epsilon" in EXCLUDE):
+            use_ref = False  # an epsilon forwarded through a function attribute is an explicit epsilon after inlining
+        if use_ref:
             # epsilon forwarded from a function attribute (inlined by the public entry points before conversion)
             for a in list(node.attribute):
                 if a.name == "epsilon":
@@ -275,6 +281,8 @@ def place(g, finish, placement, P):
                                  attributes=[ref_attr] if ref_attr else [])
         g.functions[(dom, fname)] = f
         kw = {"eps": float(g.pick([1e-5, 0.25]))} if ref_attr else {}
+        if ref_attr:
+            P["epsilon"] = kw["eps"]
         r = _emit(g, fname, present, domain=dom, **kw)
         if r is None:
             del g.functions[(dom, fname)]
@@ -351,7 +359,8 @@ def place(g, finish, placement, P):
             + ([_value_info(sc[0].name, sc[0].arr, unknown=True)] if sc else []),
             initializer=sub.inits)
         m = g.const_array(np.asarray(trip, dtype=np.int64), how=g.pick(["node", "init"]))
-        c0 = g.const_array(np.asarray(True), how=g.pick(["node", "init"])) if g.chance(5) else None
+        # the condition input is always given: onnx.reference treats an omitted condition as False (zero iterations)
+        c0 = g.const_array(np.asarray(True), how=g.pick(["node", "init"]))
         a0 = g.const_array(np.asarray(g.pick([0, 1]), dtype=y.dtype), how=g.pick(["node", "init"]))
         P["loop_trip"] = trip
         g.features.add("Loop")
@@ -397,14 +406,20 @@ def cases(draw, col=None):
             g.env.append(Val(nm, arr, "const"))
             g.value_types[nm] = (arr.dtype, arr.shape)
             g.features.add("name_collision")
+    if "fresh_names_not_unique_across_scopes" in EXCLUDE:
+        g.used_names.update(f"val_{i}" for i in range(12))  # never hand the converter's own names to a later main-graph value
     n_plants = g.pick([1, 1, 1, 2, 0])
     for _ in range(n_plants):
         fam = g.pick(FAMILIES)
         P = {"family": fam}
         finish = PREP[fam](g, P, col)
         placement = g.pick(["main", "main", "main", "if", "loop", "function", "function"])
+        if (plants and plants[0]["placement"] in ("if", "loop") and placement in ("main", "function")
+                and "fresh_names_not_unique_across_scopes" in EXCLUDE):
+            col.exclude("fresh_names_not_unique_across_scopes")  # a second rewrite after a rewritten subgraph reuses val_0..: keep it in a sibling scope
+            placement = g.pick(["if", "loop"])
         if (placement == "function" and entry == "native" and fam == "GroupNormalization" and s <= 20
-                and P.get("num_groups") != P.get("channels") and "groupnorm_20_21_not_converted" in EXCLUDE):
+                and "groupnorm_20_21_not_converted" in EXCLUDE):
             col.exclude("groupnorm_20_21_not_converted")  # function formals carry no shape: the adapter cannot fire there
             placement = "main"
         P["placement"] = placement
@@ -423,6 +438,26 @@ def cases(draw, col=None):
             r = g.emit(g.pick(["Add", "Mul", "Sub"]), [v, c])
             if r:
                 outs.append(r[0])
+    if outs and g.chance(3):
+        # the planted value captured by a later subgraph (uses inside subgraphs must follow a replaced node's output)
+        v = outs[0]
+        if isinstance(v.arr, np.ndarray) and v.dtype in (F32, F64):
+            parent_vis = g.outer + [w for w in g.env if isinstance(w.arr, np.ndarray)]
+            b1, b2 = _sub(g, parent_vis), _sub(g, parent_vis)
+            r1 = b1.emit(g.pick(["Neg", "Abs"]), [v])
+            r2 = b2.emit("Identity", [v])
+            if r1 and r2:
+                gs = [helper.make_graph(b.nodes, g.fresh("branch"), [], [_value_info(r[0].name, r[0].arr, unknown=True)], initializer=b.inits)
+                      for b, r in ((b1, r1), (b2, r2))]
+                rs = g.emit("ReduceSum", [v], keepdims=0)
+                z = g.const_array(np.asarray(0, dtype=v.dtype)) if rs else None
+                cnd = g.emit("Less", [rs[0], z]) if rs else None
+                if cnd:
+                    r = _emit(g, "If", [cnd[0]], subgraph_free=parent_vis, then_branch=gs[0], else_branch=gs[1])
+                    if r:
+                        outs.append(r[0])
+                        g.features.add("If")
+                        g.features.add("captured_by_subgraph")
     if g.chance(3):  # initializer above the C-API stripping threshold (> 1000 elements)
         shp = g.pick([(1001,), (26, 40), (1100,), (2, 3, 200)])
         big = g.const_array(make_array(g.seed(), F32, shp, "unit"), how=g.pick(["init", "init", "ovinit"] if cfg["overridable"] else ["init"]))
@@ -649,17 +684,26 @@ def _ref_ops():
                 y = y.reshape(x.shape) * scale.astype(np.float64).reshape(bshape) + bias.astype(np.float64).reshape(bshape)
             return (y.astype(x.dtype),)
 
-    _REF_OPS = [GridSample, GroupNormalization]
+    from onnx.reference import ReferenceEvaluator
+
+    class Evaluator(ReferenceEvaluator):
+        """Carries the two kernels into the evaluators it creates for subgraphs and model-local functions."""
+
+        def __init__(self, proto, opsets=None, functions=None, verbose=0, new_ops=None, **kw):
+            extra = [GridSample, GroupNormalization]
+            names = {c.__name__ for c in extra}
+            ops = [c for c in (new_ops or []) if c.__name__ not in names] + extra
+            super().__init__(proto, opsets=opsets, functions=functions, verbose=verbose, new_ops=ops, **kw)
+
+    _REF_OPS = Evaluator
     return _REF_OPS
 
 
 def _mk_source(model, use_ort=True):
     """compare.Source whose reference side carries the two extra kernels."""
-    from onnx.reference import ReferenceEvaluator
-
     src = compare.Source(model, use_ort=use_ort, use_ref=False)
     try:
-        src.ev = ReferenceEvaluator(model, new_ops=_ref_ops())
+        src.ev = _ref_ops()(model)
     except Exception as e:  # noqa: BLE001
         src.ev, src.ev_err = None, f"{type(e).__name__}: {str(e)[:200]}"
     return src
@@ -963,12 +1007,12 @@ def run_shard(spec):
                     classes.append("adapter_span:GN")
             if P.get("ref_attr"):
                 classes.append("function:ref_attr")
-        classes += [f for f in sorted(feats) if f in ("If", "Loop", "function", "big_initializer", "name_collision", "symbolic_dims",
+        classes += [f for f in sorted(feats) if f in ("If", "Loop", "function", "big_initializer", "name_collision", "symbolic_dims", "captured_by_subgraph", "evaluated_by_ort",
                                                        "value_info", "value_info:inferred", "function:nested", "Loop:scan")]
         if gm.overridable:
             classes.append("has_overridable")
         if cfg_weird(gm):
-            classes.append("weird_names")
+            classes.append("weird_or_colliding_names")
         key = (modelgen.model_hash(gm.model), s, t, entry, str(fallback), c["versions"])
         col.case(key, nontrivial, classes, sample={"s": s, "t": t, "entry": entry, "fallback": fallback, "versions": c["versions"],
                                                    "plants": c["plants"], "outcome": info.get("outcome"),
@@ -1005,8 +1049,40 @@ def _region_dft_axis(case):
 
 
 def _region_gn(case):
-    return case["s"] <= 20 < case["t"] and any(p.get("op") == "GroupNormalization" and p.get("num_groups") != p.get("channels")
-                                                and not p.get("shapes_visible") for p in case.get("plants", []))
+    # the adapter is skipped (x without shape: VersionConverterError is swallowed; symbolic C / untyped scale: returns None) and the
+    # node is relabelled anyway: wrong for per-group scale/bias, and node.version stays behind even when groups == channels
+    return case["s"] <= 20 < case["t"] and any(p.get("op") == "GroupNormalization" and not p.get("shapes_visible")
+                                                for p in case.get("plants", []))
+
+
+def _creates_values(p, s, t):
+    """Does the adapter fire on this plant *and* insert new nodes/values (named val_0, val_1, ... by the tape builder)?"""
+    if p.get("op") == "DFT":
+        return s <= 19 < t and p.get("axis") is not None
+    if p.get("op") == "GroupNormalization":
+        return s <= 20 < t and p.get("num_groups") != p.get("channels") and bool(p.get("shapes_visible"))
+    return False
+
+
+def _region_fresh_names(case):
+    import re
+
+    s, t, plants = case["s"], case["t"], case.get("plants", [])
+    for i, p in enumerate(plants):
+        if p.get("placement") in ("if", "loop") and _creates_values(p, s, t):
+            if any(_creates_values(q, s, t) and q.get("placement") in ("main", "function") for q in plants[i + 1:]):
+                return True
+            try:
+                model = optcommon.model_from_json(case["model"])
+            except Exception:  # noqa: BLE001
+                return False
+            seen_cf = False
+            for n in model.graph.node:
+                if seen_cf and any(re.fullmatch(r"val_\d+", o) for o in n.output):
+                    return True
+                if n.op_type in ("If", "Loop") and p.get("out") in n.output:
+                    seen_cf = True
+    return False
 
 
 def _region_gn_eps(case):
@@ -1019,4 +1095,5 @@ REGIONS = {
     "groupnorm_20_21_drops_epsilon": _region_gn_eps,
     "dft_default_axis_rank4": _region_dft_axis,
     "groupnorm_20_21_not_converted": _region_gn,
+    "fresh_names_not_unique_across_scopes": _region_fresh_names,
 }
